@@ -402,6 +402,40 @@ class SimFS:
 
     unlink = remove
 
+    def scandir(self, path="."):
+        fs = self
+        path = self.norm(path)
+        names = self.listdir(path)
+
+        class _Entry:
+            def __init__(self, name):
+                self.name = name
+                self.path = path + "/" + name
+
+            def is_dir(self, follow_symlinks=True):
+                return fs.isdir(self.path)
+
+            def is_file(self, follow_symlinks=True):
+                return fs.isfile(self.path)
+
+            def is_symlink(self):
+                return False
+
+            def stat(self, follow_symlinks=True):
+                return fs.stat(self.path)
+
+        class _It(list):
+            def __enter__(self):
+                return self
+
+            def __exit__(self, *a):
+                return False
+
+            def close(self):
+                pass
+
+        return _It(_Entry(n) for n in names)
+
     def listdir(self, path):
         path = self.norm(path)
         if path not in self.dirs:
